@@ -136,9 +136,10 @@ fn observer(c: AcoCase, data: Arc<Mutex<AcoData>>) -> StepObserver<TspP> {
                     }
                     // reference: evaporate every trail, then deposit symmetrically on consecutive edges of the rewarded tours
                     let candidates: Vec<Vec<usize>> = if c.bounds.is_some() {
-                        // exactly one best tour is rewarded: any tour of minimal length among the sampled ones, or among all
+                        // exactly one best tour is rewarded: any tour of minimal length among the sampled ones
+                        // (the greedy tour, index 0, is not a sampled tour)
                         let mut v = vec![];
-                        for skip in [1usize, 0] {
+                        for skip in [1usize] {
                             let pool: Vec<usize> = (skip..tours.len()).collect();
                             if let Some(m) = pool.iter().map(|i| tours[*i].1).fold(None, |a: Option<f64>, b| Some(a.map_or(b, |x| x.min(b)))) {
                                 for i in pool {
@@ -150,7 +151,7 @@ fn observer(c: AcoCase, data: Arc<Mutex<AcoData>>) -> StepObserver<TspP> {
                         }
                         v
                     } else {
-                        vec![(1..tours.len()).collect(), (0..tours.len()).collect()]
+                        vec![(1..tours.len()).collect()]
                     };
                     let mut matched = candidates.is_empty();
                     let mut last_ref = vec![];
@@ -245,6 +246,49 @@ fn spec_for(c: &AcoCase, iters: u32) -> Spec<TspP> {
     }
 }
 
+/// A second ACO run on the state of a first one (another instance size): initialisation builds a matrix for
+/// the new instance; the run succeeds and ends with valid tours of the new size.
+fn check_second_run(n1: usize, n2: usize, mmas: bool, seed: u64) -> Option<(String, String)> {
+    use mahf::conditions::LessThanN;
+    let mk = |n: usize| -> mahf::ExecResult<(TspP, mahf::Configuration<TspP>)> {
+        let cfg = if mmas {
+            aco::max_min_ant_system(aco::MMASParameters::verif_new(2, 1.0, 1.0, 1.0, 0.1, 2.0, 0.5), LessThanN::iterations(2))?
+        } else {
+            aco::ant_system(aco::ASParameters::verif_new(2, 1.0, 1.0, 1.0, 0.1, 1.0), LessThanN::iterations(2))?
+        };
+        Ok((instance(n, 0), cfg))
+    };
+    let head = format!("C19 {} second-run-on-the-same-state", if mmas { "max-min" } else { "ant-system" });
+    let ctx = |w: String| format!("{} on {} cities, then on {} cities, on one state (seed {}): {}", if mmas { "max_min_ant_system" } else { "ant_system" }, n1, n2, seed, w);
+    let mut st: State<TspP> = State::new();
+    st.insert(mahf::Random::new(seed));
+    st.insert(Populations::<TspP>::new());
+    st.insert(mahf::logging::Log::new());
+    st.insert_evaluator(mahf::problems::Sequential::<TspP>::new());
+    for (k, n) in [n1, n2].into_iter().enumerate() {
+        let (problem, cfg) = match mk(n) {
+            Ok(x) => x,
+            Err(e) => return Some((format!("{} construction", head), ctx(format!("{:#}", e)))),
+        };
+        match crate::engine::util::catch(|| cfg.run(&problem, &mut st)) {
+            Err(p) => return Some((format!("{} panic", head), ctx(format!("run {} panicked: {}", k + 1, p.chars().take(200).collect::<String>())))),
+            Ok(Err(e)) => return Some((format!("{} error", head), ctx(format!("run {}: {:#}", k + 1, e)))),
+            Ok(Ok(())) => {}
+        }
+        let pops = st.populations();
+        for t in pops.current() {
+            if !is_permutation(t.solution(), n) || t.solution()[0] != 0 {
+                return Some((format!("{} invalid-tour", head), ctx(format!("after run {} the population holds the tour {:?}", k + 1, t.solution()))));
+            }
+        }
+        match crate::engine::util::catch(|| read_matrix(&st, n)).ok().flatten() {
+            Some(m) if m.len() == n && m.iter().all(|r| r.len() == n) => {}
+            _ => return Some((format!("{} matrix-size", head), ctx(format!("after run {} the pheromone matrix does not have {} x {} entries", k + 1, n, n)))),
+        }
+    }
+    None
+}
+
 pub fn cases(thorough: bool) -> Vec<AcoCase> {
     let mut v = vec![];
     let cities: Vec<usize> = if thorough { vec![3, 4, 5] } else { vec![3, 4] };
@@ -323,6 +367,19 @@ pub fn run(rep: &mut Report) {
     let menu: Vec<u64> = if thorough { MENU19.to_vec() } else { MENU8.to_vec() };
     let seeds: Vec<u64> = if thorough { vec![rep.seed, rep.seed + 1, rep.seed + 2] } else { vec![rep.seed] };
     let cs = cases(thorough);
+    let mut part = Part::new("aco.second-run-on-the-same-state");
+    for mmas in [false, true] {
+        for (n1, n2) in [(3usize, 5usize), (5, 3), (4, 4), (2, 6), (6, 2)] {
+            part.transitions += 2;
+            part.traces += 1;
+            part.states += 1;
+            part.outcome(format!("{}:{}", n1 < n2, mmas));
+            if let Some((s, d)) = check_second_run(n1, n2, mmas, rep.seed) {
+                part.violate(s, d, json!({"kind": "second-run", "n1": n1, "n2": n2, "mmas": mmas, "seed": rep.seed}));
+            }
+        }
+    }
+    rep.push(part);
     let mut part = Part::new("aco.run-explorer");
     part.bound("cases", cs.len() as u64).bound("iterations", iters as u64).bound("menu_words", menu.len() as u64).bound("max_deviations", 1).bound("base_seeds", seeds.len() as u64);
     let jobs: Vec<(usize, u64)> = (0..cs.len()).flat_map(|i| seeds.iter().map(move |s| (i, *s))).collect();
@@ -371,6 +428,9 @@ pub fn run(rep: &mut Report) {
 }
 
 pub fn replay(case: &Value) -> Result<Vec<(String, String)>, String> {
+    if case["kind"].as_str() == Some("second-run") {
+        return Ok(check_second_run(case["n1"].as_u64().unwrap_or(3) as usize, case["n2"].as_u64().unwrap_or(3) as usize, case["mmas"].as_bool().unwrap_or(false), case["seed"].as_u64().unwrap_or(0)).into_iter().collect());
+    }
     let want = case["case"].as_str().ok_or("no case")?;
     let thorough = case["thorough"].as_bool().unwrap_or(false);
     let iters = case["iters"].as_u64().unwrap_or(3) as u32;
